@@ -74,4 +74,10 @@ structure MwEnv where
   route : PState → PState
   startUpload : PState → PState
 
+/-- what `_handle_async_handler_result` / `_handle_titan_upload_result` call and do not contain -/
+structure ResEnv where
+  taskResult : Except (List Char) Resp                        -- `task.result()`: the handler's response, or the text of its exception
+  sendError : PState → Nat → List Char → PState
+  sendResponse : PState → Resp → PState                       -- `self._send_response(response)`
+
 end Srv
